@@ -32,3 +32,83 @@ def fan_bounds(chk, f, label):
     chk.ob("fan-lower-bound", label, zero and fanread,
            "the lower bound of the bisection is initialised from %d site(s) and none of them is the constant 0: ids whose first byte is 0x00 start at position 0, not at fan[0]" % (len(init) + len(calls)),
            "%s:%d" % (f.file, cm["line"]), key="fan-lower-bound|%s" % f.name)
+
+
+def fan_index_rule(db, chk, crates, floor):
+    """every read of a fan-out table (`[u32; 256]`) at `first_byte - 1` - the lower end of a bucket - is reachable only when first_byte != 0; for
+    first byte 0 the bucket starts at position 0, not at fan[0].  `saturating_sub(1)` or a wrapping/unchecked subtraction silently reads fan[0]
+    instead.  Checked over every function of the given crates that indexes such a table (not only the known bisections)."""
+    from gx.flow import Flow, comparisons, bool_switch_edges
+    n = 0
+    for crate in crates:
+        for f in db.by_crate[crate]:
+            if f.kind == "promoted":
+                continue
+            reads = []
+            for bi, si, pl, rv, ln, mc in f.assigns():
+                ops = []
+                if rv[0] in ("use", "cast"):
+                    ops = [rv[1] if rv[0] == "use" else rv[2]]
+                elif rv[0] == "ref":
+                    ops = [{"p": rv[2]}]
+                for op in ops:
+                    if not isinstance(op, dict) or "p" not in op:
+                        continue
+                    p = op["p"]
+                    idx = [x for x in p[1:] if isinstance(x, str) and x.startswith("[")]
+                    if not idx or not isinstance(p[0], int):
+                        continue
+                    base_ty = f.locals[p[0]]
+                    fields = [x for x in p[1:] if isinstance(x, str) and x.startswith(".")]
+                    if "[u32; 256]" in base_ty or ".fan" in fields:
+                        try:
+                            il = int(idx[0].strip("[]_"))
+                        except ValueError:
+                            continue
+                        reads.append((bi, il, ln))
+            if not reads:
+                continue
+            fl = Flow(f)
+            for bi, il, ln in reads:
+                n += 1
+                r = fl.roots(il, stop_named=False)
+                minus = [x for x in r if x[0] == "call" and x[1].endswith(("::saturating_sub", "::wrapping_sub", "::checked_sub", "::unchecked_sub"))]
+                subs = []
+                seen, work = set(), [il]
+                while work:
+                    l = work.pop()
+                    if l in seen:
+                        continue
+                    seen.add(l)
+                    for b2, s2, pl2, rv2, ln2, mc2 in f.assigns():
+                        if pl2 and pl2[0] == l:
+                            if rv2[0] == "bin" and rv2[1].startswith("Sub") and "p" not in rv2[3] and rv2[3].get("v") == 1 and "p" in rv2[2]:
+                                subs.append(rv2[2])
+                            for o in ([rv2[1]] if rv2[0] == "use" else [rv2[2]] if rv2[0] == "cast" else [rv2[2], rv2[3]] if rv2[0] == "bin" else []):
+                                if isinstance(o, dict) and "p" in o and isinstance(o["p"][0], int):
+                                    work.append(o["p"][0])
+                    for c in f.calls():
+                        if c.dest and c.dest[0] == l and c.is_(r"::(saturating|wrapping|checked|unchecked)_sub$|convert::(From|Into)|::from$|::into$"):
+                            for a in c.args:
+                                if "p" in a and isinstance(a["p"][0], int):
+                                    work.append(a["p"][0])
+                if not minus and not subs:
+                    continue
+                # the read must be behind a `!= 0` / `> 0` (or the false edge of `== 0`) test
+                good = set()
+                for cm in comparisons(f):
+                    for side, other in (("a", "b"), ("b", "a")):
+                        if "p" in cm[side] and "p" not in cm[other] and cm[other].get("v") == 0:
+                            e = bool_switch_edges(f, cm["block"], cm["res"])
+                            if not e:
+                                continue
+                            op = cm["op"] if side == "a" else {"Lt": "Gt", "Gt": "Lt", "Le": "Ge", "Ge": "Le"}.get(cm["op"], cm["op"])
+                            if op in ("Ne", "Gt"):
+                                good |= e[0]
+                            elif op in ("Eq", "Le"):
+                                good |= e[1]
+                ok = bool(good) and fl.cut_off([bi], good)
+                chk.ob("fan-bucket-start-for-byte-zero", "%s fan[..-1]@%d" % (f.name.split("::")[-1], ln), ok,
+                       "the fan-out table is read at `first byte - 1` on a path without a `!= 0` test (%s): for ids starting with 0x00 the bucket is taken as fan[0]..fan[0] instead of 0..fan[0]" % ("saturating/wrapping subtraction" if minus else "subtraction"),
+                       "%s:%d" % (f.file, ln), key="fan-bucket|%s" % f.name)
+    chk.floor("reads of fan-out tables examined", n, floor)
